@@ -117,9 +117,9 @@ theorem truncate?_eq (alloc : Bool) (b : LongNameBuilder) (h : WF alloc b) :
 /-- after `truncate`: the new length is inside the storage and not larger than the old one -/
 theorem truncate_ok (alloc : Bool) (b : LongNameBuilder) (h : WF alloc b) :
     (truncate alloc b).buf.len ≤ (truncate alloc b).buf.units.length ∧
-    (truncate alloc b).buf.len = stripLen b.buf.asUnits ∧ stripLen b.buf.asUnits ≤ b.buf.len := by
+    (truncate alloc b).buf.len = cutLen b.buf.asUnits ∧ cutLen b.buf.asUnits ≤ b.buf.len := by
   have hl := WF_len_le alloc b h
-  have h1 := stripLen_le b.buf.asUnits
+  have h1 := cutLen_le b.buf.asUnits
   rw [asUnits_length _ hl] at h1
   refine ⟨?_, ?_, h1⟩
   · cases alloc <;> simp [truncate, LfnBuf.setLen] <;> omega
